@@ -9,6 +9,8 @@ import pickle
 import re
 import sys
 
+import os
+import zlib
 import parso
 from parso.parser import ParserSyntaxError
 from parso.python.tokenize import tokenize, PythonTokenTypes
@@ -783,6 +785,38 @@ def check_C20(code, version, env):
                 F.append(Fail('bnd:C20.e292.exact', 'e292', 'E292 reported=%s, text ends in line break=%s' % (e292, not want), code))
     if m.dump(indent=None) != before:
         F.append(Fail('bnd:C20.pure', 'dump', 'normalizer modified the tree', code))
+    # "the same whether the tree came from a fresh parse or an incremental re-parse": list the issues of a cached tree, re-parse
+    # an edited text incrementally (a line in front, so reused statements move), list again, compare with a fresh parse of
+    # the edited text.  A quarter of the small programs (cost), default configuration.
+    if len(code) < 300 and zlib.crc32(code.encode('utf-8', 'replace')) % 4 == 0:
+        from parso import cache as _pc
+        path = '/nonexistent/c20_%d.py' % os.getpid()
+        try:
+            _pc.parser_cache.pop(g._hashed, None)
+            m1 = g.parse(code, diff_cache=True, path=path)
+            try:
+                g._get_normalizer_issues(m1)
+            except Exception:  # noqa   crashes are reported above
+                pass
+            code2 = 'x = 1\n' + code + ('' if code.endswith(('\n', '\r')) or not code else '\n') + 'y = 2\n'
+            m2 = g.parse(code2, diff_cache=True, path=path)
+            fresh = g.parse(code2)
+            if m2.dump(indent=None) == fresh.dump(indent=None):        # (a different tree is C04's business)
+                a = b = None
+                try:
+                    a = [_issue_key(i) for i in g._get_normalizer_issues(m2)]
+                    b = [_issue_key(i) for i in g._get_normalizer_issues(fresh)]
+                except Exception:  # noqa
+                    pass
+                if a is not None and b is not None and a != b:
+                    F.append(Fail('bnd:C20.stable.incremental', 'incremental',
+                                  'issues of the incrementally re-parsed tree differ from those of a fresh parse: %r vs %r' % (a[:4], b[:4]), code))
+        except RecursionError:
+            pass
+        except Exception:  # noqa   crashes of the diff parser are C04's business
+            pass
+        finally:
+            _pc.parser_cache.pop(g._hashed, None)
     return F
 
 
